@@ -690,7 +690,7 @@ def run_regex_tie(res, quick, pool):
     check = (f'(fun c : nat * string * N => let \'(k, p, h) := c in '
              f'N.eqb (step_fp k p {n}) h)')
     bad, errs = common.run_case_files('c11_steps', HEADER, 'nat * string * N',
-                                      check, cases, chunk=10)
+                                      check, cases, chunk=40)
     n_str = sum(len(ALPHA_X) ** k for k in range(1, n + 2))
     res.obligation(f'tie:regex steps (strip, the eight re.sub of normalize() '
                    f'and normalize itself vs Regex.v on all {n_str} non-empty '
@@ -707,14 +707,14 @@ def run_regex_tie(res, quick, pool):
                                  'prefix': jobs[idx // len(names)][0]}},
                       found_input=False)
     res.evaluations += n_str * len(names)
-    m = 4 if quick else 5
+    m = 3 if quick else 5
     pjobs = [(a, m) for a in ALPHA_P]
     psums = pool.map(peg_job, pjobs)
     pcases = [cpair(cstr(pre), cn(tot)) for (pre, _), (tot, _) in
               zip(pjobs, psums)]
     pcheck = (f'(fun c : string * N => N.eqb (peg_fp (fst c) {m}) (snd c))')
     bad, errs = common.run_case_files('c11_peg', HEADER, 'string * N', pcheck,
-                                      pcases, chunk=1)
+                                      pcases, chunk=1 if not quick else 4)
     p_str = sum(len(ALPHA_P) ** k for k in range(1, m + 2))
     res.obligation(f'tie:peg (geom.ebnf + GeomSemantics vs Regex.peg_start on '
                    f'all {p_str} non-empty strings of length <= {m + 1} over '
@@ -1453,14 +1453,17 @@ def run_split(res, rng, texts):
     res.obligation(f'sweep:split (geometry of {len(texts)} cell cards = the '
                    'expression)', n_bad == 0, f'{n_bad} differ')
     bad, errs = common.run_case_files(
-        'c11_split', HEADER, 'string * res (string * string)', 'check_split',
+        'c11_split', HEADER + 'From T4V Require Import C11.ExecSplit.\n',
+        'string * res (string * string)', 'check_split_full',
         cases, chunk=300)
     res.obligation(f'tie:split ({len(cases)} cell cards incl. malformed: '
                    'cellcard.split vs Model.split_card)',
                    not bad and not errs, f'{len(bad)} disagreements {errs[:1]}')
     for idx in bad[:8]:
         card, got = meta[idx]
-        model, _ = common.coq_eval(HEADER, f'split_card {cstr(card)}')
+        model, _ = common.coq_eval(
+            HEADER + 'From T4V Require C11.LinkC15.\n',
+            f'LinkC15.split_card_full {cstr(card)}')
         res.violation('correspondence',
                       f'cellcard.split({card!r}): implementation {got}, model '
                       f'{model}',
